@@ -18,6 +18,7 @@ import (
 
 	"github.com/samaritan-proxy/samaritan/host"
 	"github.com/samaritan-proxy/samaritan/proc"
+	"github.com/samaritan-proxy/samaritan/utils"
 )
 
 func c05Data(seed, n int, b2c bool) []byte {
@@ -59,7 +60,43 @@ func writeChunks(c net.Conn, d []byte, chunk int) {
 func runC05(line string) string {
 	var seed, nc, nb, cch, bch int
 	var order string
-	fmt.Sscanf(line, "%d %d %d %s %d %d", &seed, &nc, &nb, &order, &cch, &bch)
+	var paceMs, idleMs, bslowMs int // optional: pause between writes, idle timeout of the service, backend pause per 256 KiB read
+	fmt.Sscanf(line, "%d %d %d %s %d %d %d %d %d", &seed, &nc, &nb, &order, &cch, &bch, &paceMs, &idleMs, &bslowMs)
+	readAll := func(c net.Conn) ([]byte, error) {
+		if bslowMs == 0 {
+			return io.ReadAll(c)
+		}
+		var all []byte
+		buf := make([]byte, 256<<10)
+		for {
+			n, err := c.Read(buf)
+			all = append(all, buf[:n]...)
+			if err == io.EOF {
+				return all, nil
+			}
+			if err != nil {
+				return all, err
+			}
+			time.Sleep(time.Duration(bslowMs) * time.Millisecond)
+		}
+	}
+	write := func(c net.Conn, d []byte, chunk int) {
+		if paceMs == 0 {
+			writeChunks(c, d, chunk)
+			return
+		}
+		for len(d) > 0 {
+			k := chunk
+			if k > len(d) {
+				k = len(d)
+			}
+			if _, err := c.Write(d[:k]); err != nil {
+				return
+			}
+			d = d[k:]
+			time.Sleep(time.Duration(paceMs) * time.Millisecond)
+		}
+	}
 	ln, _ := net.Listen("tcp", "127.0.0.1:0")
 	defer ln.Close()
 	type res struct {
@@ -79,25 +116,28 @@ func runC05(line string) string {
 		c.SetDeadline(time.Now().Add(time.Duration(float64(10*time.Second) * loadFactor)))
 		switch order {
 		case "c": // read everything first, then answer
-			got, err := io.ReadAll(c)
-			writeChunks(c, bdata, bch)
+			got, err := readAll(c)
+			write(c, bdata, bch)
 			tc.CloseWrite()
 			bres <- res{got, err == nil}
 		case "b": // answer first, then read
-			writeChunks(c, bdata, bch)
+			write(c, bdata, bch)
 			tc.CloseWrite()
-			got, err := io.ReadAll(c)
+			got, err := readAll(c)
 			bres <- res{got, err == nil}
 		default:
 			done := make(chan struct{})
-			go func() { writeChunks(c, bdata, bch); tc.CloseWrite(); close(done) }()
-			got, err := io.ReadAll(c)
+			go func() { write(c, bdata, bch); tc.CloseWrite(); close(done) }()
+			got, err := readAll(c)
 			<-done
 			bres <- res{got, err == nil}
 		}
 	}()
 	port := freePort()
 	cfg := tcpConfig(port)
+	if idleMs > 0 {
+		cfg.IdleTimeout = utils.DurationPtr(time.Duration(idleMs) * time.Millisecond)
+	}
 	pname := fmt.Sprintf("c05x%d", nextProcSeq())
 	p, err := proc.New(pname, cfg, []*host.Host{host.New(ln.Addr().String())})
 	if err != nil {
@@ -122,16 +162,16 @@ func runC05(line string) string {
 	var cerr error
 	switch order {
 	case "c":
-		writeChunks(c, cdata, cch)
+		write(c, cdata, cch)
 		tc.CloseWrite()
 		cgot, cerr = io.ReadAll(c)
 	case "b":
 		cgot, cerr = io.ReadAll(c)
-		writeChunks(c, cdata, cch)
+		write(c, cdata, cch)
 		tc.CloseWrite()
 	default:
 		done := make(chan struct{})
-		go func() { writeChunks(c, cdata, cch); tc.CloseWrite(); close(done) }()
+		go func() { write(c, cdata, cch); tc.CloseWrite(); close(done) }()
 		cgot, cerr = io.ReadAll(c)
 		<-done
 	}
@@ -160,6 +200,7 @@ func init() {
 			lines = readLines(*fIn)
 		} else {
 			r := newRng(*fSeed)
+			lines = append(lines, "7 60 60 x 1 1 50 2000 0", "9 6291456 10 b 1048576 10 0 0 40")
 			sizes := []int{0, 1, 2, 100, 4095, 16383, 16384, 16385, 40000, 100000}
 			for i := 0; i < *fN; i++ {
 				nc, nb := sizes[r.intn(len(sizes))], sizes[r.intn(len(sizes))]
